@@ -38,6 +38,12 @@ type C19Sc struct {
 	Driver   string    `json:"driver"` // client | server-msg | server-item
 	Stages   []StageSc `json:"stages"`
 	Requests int       `json:"requests"` // concurrent requests sharing the chain (1..3)
+	// Cut: 0 = the whole list is registered in one call; k >= 1 = stages[:k] in a first call, the rest in a second
+	// (both from one caller-owned slice with spare capacity)
+	Cut int `json:"cut,omitempty"`
+	// Sibling: a second executor / client configured from the same common list plus one stage of its own that must
+	// never run for this chain's requests. 1 = configured after this chain, 2 = before
+	Sibling int `json:"sibling,omitempty"`
 }
 
 func genStage(g *simrt.Tape) StageSc {
@@ -63,6 +69,12 @@ func genC19(g *simrt.Tape, tier string) any {
 			pos := g.Draw(len(sc.Stages) + 1)
 			sc.Stages = append(sc.Stages[:pos], append([]StageSc{st}, sc.Stages[pos:]...)...)
 		}
+	}
+	if len(sc.Stages) > 0 && g.Draw(3) == 0 {
+		sc.Cut = 1 + g.Draw(len(sc.Stages))
+	}
+	if g.Draw(4) == 0 {
+		sc.Sibling = 1 + g.Draw(2)
 	}
 	return sc
 }
@@ -107,6 +119,18 @@ func c19Floor(tier string) []*C19Sc {
 			}
 		}
 		rec(nil, 0)
+		// registration plans: every cut of every 1-3 stage pass-through/retry chain, with and without a sibling
+		for n := 1; n <= 3; n++ {
+			for cut := 0; cut <= n; cut++ {
+				for sib := 0; sib <= 2; sib++ {
+					st := make([]StageSc, n)
+					for i := range st {
+						st[i] = StageSc{Calls: 1 + i%2}
+					}
+					out = append(out, &C19Sc{Driver: d, Stages: st, Requests: 1, Cut: cut, Sibling: sib})
+				}
+			}
+		}
 	}
 	return out
 }
@@ -304,6 +328,39 @@ func (cr *chainRun) msgStage(i int) func(next func(context.Context, *kmip.Reques
 	}
 }
 
+// siblingStage belongs to the chain of another executor / client built from the same common list: it must never
+// run for a request of the chain under test.
+func (cr *chainRun) siblingStage() func(next func(context.Context, *kmip.RequestMessage) (*kmip.ResponseMessage, error), ctx context.Context, msg *kmip.RequestMessage) (*kmip.ResponseMessage, error) {
+	return func(next func(context.Context, *kmip.RequestMessage) (*kmip.ResponseMessage, error), ctx context.Context, msg *kmip.RequestMessage) (*kmip.ResponseMessage, error) {
+		req, _ := markerOfToken(reqTokenOf(msg))
+		cr.rec(req, "stage of another executor ran")
+		return next(ctx, msg)
+	}
+}
+
+// registerPlan calls use(a, b) for every registration call of the chain under test (one or two calls over the
+// caller-owned list) and sibling(0, k) for the sibling, which shares the first registration call's sub-list.
+func registerPlan(sc *C19Sc, n int, use func(a, b int), sibling func(a, b int)) {
+	cut := sc.Cut
+	if cut > n {
+		cut = n
+	}
+	first := n
+	if cut > 0 {
+		first = cut
+	}
+	if sc.Sibling == 2 {
+		sibling(0, first)
+	}
+	use(0, first)
+	if cut > 0 {
+		use(cut, n)
+	}
+	if sc.Sibling == 1 {
+		sibling(0, first)
+	}
+}
+
 func (cr *chainRun) itemStage(i int) kmipserver.BatchItemMiddleware {
 	st := programStages(cr.sc.Stages)[i]
 	return func(next kmipserver.BatchItemNext, ctx context.Context, bi *kmip.RequestBatchItem) (*kmip.ResponseBatchItem, error) {
@@ -378,24 +435,52 @@ func execC19(x *X, scAny any) {
 
 	switch sc.Driver {
 	case "server-msg":
+		list := make([]kmipserver.Middleware, 0, len(sc.Stages)+4)
 		label := 0
 		for _, stg := range sc.Stages {
 			if stg.Stock != "" {
-				w.exec.Use(kmipserver.DebugMiddleware(io.Discard, nil))
+				list = append(list, kmipserver.DebugMiddleware(io.Discard, nil))
 				continue
 			}
 			st := cr.msgStage(label)
 			label++
-			w.exec.Use(func(next kmipserver.Next, ctx context.Context, msg *kmip.RequestMessage) (*kmip.ResponseMessage, error) {
+			list = append(list, func(next kmipserver.Next, ctx context.Context, msg *kmip.RequestMessage) (*kmip.ResponseMessage, error) {
 				return st(next, ctx, msg)
 			})
 		}
-	case "server-item":
-		for i := range programStages(sc.Stages) {
-			w.exec.BatchItemUse(cr.itemStage(i))
+		sib := func(next kmipserver.Next, ctx context.Context, msg *kmip.RequestMessage) (*kmip.ResponseMessage, error) {
+			return cr.siblingStage()(next, ctx, msg)
 		}
+		registerPlan(sc, len(list),
+			func(a, b int) { w.exec.Use(list[a:b]...) },
+			func(a, b int) {
+				other := kmipserver.NewBatchExecutor()
+				other.Use(list[a:b]...)
+				other.Use(sib)
+			})
+	case "server-item":
+		list := make([]kmipserver.BatchItemMiddleware, 0, len(sc.Stages)+4)
+		for i := range programStages(sc.Stages) {
+			list = append(list, cr.itemStage(i))
+		}
+		sib := func(next kmipserver.BatchItemNext, ctx context.Context, bi *kmip.RequestBatchItem) (*kmip.ResponseBatchItem, error) {
+			tok := "?"
+			if p, ok := bi.RequestPayload.(*payloads.ActivateRequestPayload); ok {
+				tok = p.UniqueIdentifier
+			}
+			req, _ := markerOfToken(tok)
+			cr.rec(req, "stage of another executor ran")
+			return next(ctx, bi)
+		}
+		registerPlan(sc, len(list),
+			func(a, b int) { w.exec.BatchItemUse(list[a:b]...) },
+			func(a, b int) {
+				other := kmipserver.NewBatchExecutor()
+				other.BatchItemUse(list[a:b]...)
+				other.BatchItemUse(sib)
+			})
 	}
-	var cl *kmipclient.Client
+	var cl, sibling *kmipclient.Client
 	var cw *clientWorld
 	if sc.Driver == "client" {
 		cw = newClientWorld(x, &ClientSc{Prop: "C19", Enforce: true})
@@ -431,9 +516,35 @@ func execC19(x *X, scAny any) {
 					return st(next, ctx, msg)
 				})
 			}
-			c, err := kmipclient.DialContext(context.Background(), "sim", kmipclient.WithDialerUnsafe(cw.dialer), kmipclient.EnforceVersion(kmip.V1_4), kmipclient.WithMiddlewares(mws...))
+			list := make([]kmipclient.Middleware, 0, len(mws)+4)
+			list = append(list, mws...)
+			sib := func(next kmipclient.Next, ctx context.Context, msg *kmip.RequestMessage) (*kmip.ResponseMessage, error) {
+				return cr.siblingStage()(next, ctx, msg)
+			}
+			base := []kmipclient.Option{kmipclient.WithDialerUnsafe(cw.dialer), kmipclient.EnforceVersion(kmip.V1_4)}
+			var mine, others []kmipclient.Option
+			registerPlan(sc, len(list),
+				func(a, b int) { mine = append(mine, kmipclient.WithMiddlewares(list[a:b]...)) },
+				func(a, b int) {
+					others = append(append([]kmipclient.Option{}, base...), kmipclient.WithMiddlewares(list[a:b]...), kmipclient.WithMiddlewares(sib))
+				})
+			dialSibling := func() {
+				if others == nil {
+					return
+				}
+				if oc, err := kmipclient.DialContext(context.Background(), "sim", others...); err == nil {
+					sibling = oc
+				}
+			}
+			if sc.Sibling == 2 {
+				dialSibling()
+			}
+			c, err := kmipclient.DialContext(context.Background(), "sim", append(base, mine...)...)
 			if err == nil {
 				cl = c
+			}
+			if sc.Sibling == 1 {
+				dialSibling()
 			}
 			ready = true
 		})
@@ -474,6 +585,9 @@ func execC19(x *X, scAny any) {
 			s.WaitUntil("done", func() bool { return done == sc.Requests })
 			if cl != nil {
 				_ = cl.Close()
+			}
+			if sibling != nil {
+				_ = sibling.Close()
 			}
 		})
 	}
